@@ -54,6 +54,7 @@ type sessionPlan struct {
 type scenario struct {
 	Sessions []sessionPlan `json:"sessions"`
 	Burst    bool          `json:"burst"`
+	Debug    bool          `json:"debug_logging,omitempty"`
 }
 
 func auditLines(p sessionPlan, seq *int) []string {
@@ -80,6 +81,8 @@ type outcome struct {
 }
 
 func runScenario(sc scenario) outcome {
+	auditd.SetLogger(hutil.Logger(sc.Debug))
+	sshd.SetLogger(hutil.Logger(sc.Debug))
 	w := &recWriter{}
 	ew := auditevent.NewDefaultAuditEventWriter(w)
 	logins := make(chan common.RemoteUserLogin) // unbuffered, as in cmd/namedpipe.go
@@ -256,6 +259,7 @@ func main() {
 			"non-trivial = at least 2 sessions and at least one UserAction written; distinct by scenario")
 	for i := 0; i < *n; i++ {
 		sc := genScenario(r)
+		sc.Debug = i%3 == 1
 		o := runScenario(sc)
 		sum.Count(fmt.Sprint(sc), len(sc.Sessions) >= 2 && o.Got > 0)
 		sum.Dist(fmt.Sprintf("sessions_%d", len(sc.Sessions)))
